@@ -53,6 +53,17 @@ func factsControl() {
 			strings.Contains(wp, "this.partitionsMu.RLock() defer this.partitionsMu.RUnlock()") && strings.Contains(wp, "partitions = append(partitions, partition)")),
 			"the node change handlers iterate a copy of the watched set and hold no allocator lock while proposing")
 	}
+	// the wait for the zero group holds no lock that catalogue entries take when they are applied
+	pw, f13 := bodyText("storage/dataset_manager.go", "DatasetManager", "proposePartitionNodesChangeAndWaitForCommit")
+	apn, f14 := bodyText("storage/dataset_manager.go", "DatasetManager", "addPartitionNode")
+	rpn, f15 := bodyText("storage/dataset_manager.go", "DatasetManager", "removePartitionNode")
+	if f13 == nil || f14 == nil || f15 == nil {
+		unrec("proposal_wait_lock_free", "bool", "proposePartitionNodesChangeAndWaitForCommit / addPartitionNode / removePartitionNode not found")
+	} else {
+		locky := func(t string) bool { return strings.Contains(t, "Mu.") || strings.Contains(t, ".Lock()") || strings.Contains(t, ".RLock()") }
+		known("proposal_wait_lock_free", "bool", b(!locky(pw) && !locky(apn) && !locky(rpn) && strings.Contains(pw, "case err := <-notifC:") && strings.Contains(pw, "this.raft.Propose(ctx, proposalData)")),
+			"proposing a replica change and waiting for it to be applied takes no lock")
+	}
 	pa, f10 := bodyText("storage/partition.go", "partition", "proposeAddNode")
 	pr, f11 := bodyText("storage/partition.go", "partition", "proposeRemoveNode")
 	if f10 == nil || f11 == nil {
